@@ -27,7 +27,7 @@ import threading
 # ---------------------------------------------------------------------------
 # Lines are collected in this process (threads of OpRunner, set-up code) and in every forked child that serves an
 # arrangement or a baseline (they hand their lines back with their answer).  The report is written to
-# evidence/<ID>.coverage.json when the checking process exits.
+# evidence/dev/<ID>.coverage.json when the checking process exits.
 
 COV = os.environ.get('VERIF_COVERAGE') == '1'
 COV_LINES = set()          # (file relative to the ombott package, line)
@@ -123,7 +123,7 @@ def cov_report(pid):
             else:
                 missing.setdefault(rel, []).append([ln, q, src[ln - 1].strip()[:100]])
     root = os.path.dirname(os.path.dirname(os.path.dirname(os.path.abspath(__file__))))
-    path = os.path.join(root, 'evidence', '%s.coverage.json' % pid)
+    path = os.path.join(root, 'evidence', 'dev', '%s.coverage.json' % pid)
     with open(path, 'w') as f:
         json.dump(dict(property=pid, anchored_lines=total, reached=reached, missing=missing), f, indent=1)
     sys.stderr.write('coverage %s: %d of %d executable lines of the anchored functions reached -> %s\n'
